@@ -345,8 +345,11 @@ OBLIGATIONS.append(M("C14", "c14_if_branch", {"q": "if_branch"}, ["Interpreter::
 OBLIGATIONS.append(M("C16", "c16_step_vs_run", {"q": "step_vs_run"}, ["Interpreter::run_impl", "Interpreter::next_impl", "Interpreter::match_script_bit", "Interpreter::match_opcode"],
                      "twelve short scripts (arithmetic, stack, alt stack, VERIFY, IF/ELSE, NOTIF, nested IF, too many DROPs, empty, OP_RETURN followed by more elements at top level and inside an executed branch) on two symbolic one-byte operands: run_impl and repeated next_impl executed on the same path end in the same outcome and stacks; the step sequence ends after a failing step; nothing runs after an executed OP_RETURN", cost=1))
 
-OBLIGATIONS.append(M("C02", "c02_script_parse", {"q": "script_parse"}, ["Script::from_bytes", "Script::if_statement_pass", "Script::read_if_statement", "Script::read_pass", "Script::read_fail", "OpCodes::from_u8 (num_derive)"],
-                     "twelve structured script shapes (opcodes; direct pushes of 1, 2, 3, 75 bytes; PUSHDATA1 of 3, 76, 255; PUSHDATA2 of 256; IF/ELSE, NOTIF without ELSE, empty branches, two-level nesting; OP_0 before a push; the empty script) with symbolic payload bytes: parse(reference serialisation) = the structure; the same inputs cut short inside their final push and three unclosed conditionals must be rejected", cost=1,
+OBLIGATIONS.append(M("C02", "c02_truncated_direct_push", {"q": "script_parse", "part": "direct_truncation"}, ["Script::from_bytes"],
+                     "the shapes of c02_script_parse that end in a DIRECT push (1, 2, 3, 75 bytes), cut by one byte and by the whole payload: must be rejected - this is the open known finding (the library shortens the push)", cost=1,
+                     stubs=("E2: content-aware std::io::Cursor over a byte string of known length (read_u8/u16/u32, partial read, position)",)))
+OBLIGATIONS.append(M("C02", "c02_script_parse", {"q": "script_parse", "part": "no_direct_truncation"}, ["Script::from_bytes", "Script::if_statement_pass", "Script::read_if_statement", "Script::read_pass", "Script::read_fail", "OpCodes::from_u8 (num_derive)"],
+                     "twelve structured script shapes (opcodes; direct pushes of 1, 2, 3, 75 bytes; PUSHDATA1 of 3, 76, 255; PUSHDATA2 of 256; IF/ELSE, NOTIF without ELSE, empty branches, two-level nesting; OP_0 before a push; the empty script) with symbolic payload bytes: parse(reference serialisation) = the structure; the same inputs cut short inside a final OP_PUSHDATA push and three unclosed conditionals must be rejected (truncated DIRECT pushes: see c02_truncated_direct_push)", cost=1,
                      stubs=("E2: content-aware std::io::Cursor over a byte string of known length (read_u8/u16/u32, partial read, position)",)))
 
 # ---------------------------------------------------------------- C17 (token level)
@@ -357,8 +360,10 @@ EXPLANATION["C17"] = ("Partial: TOKEN LEVEL only. Text is modelled as a list of 
                       "symbolic push payloads and decides that the re-parsed script is the original: element kinds, opcode identities, push class chosen from the data length (direct / PUSHDATA1 / PUSHDATA2), "
                       "payload bytes, conditional nesting with empty and missing branches. NOT decided: character-level behaviour (whitespace runs, line breaks, upper-case or odd-length hex, what exactly is "
                       "rejected), the extended rendering, strum's generated name tables.")
-OBLIGATIONS.append(M("C17", "c17_asm_tokens", {"q": "asm_roundtrip"}, ["Script::to_asm_string_impl", "Script::script_bits_to_asm_string (+closure)", "Script::from_asm_string (+closure)", "Script::map_string_to_script_bit", "Script::if_statement_pass / read_if_statement / read_pass / read_fail", "VarInt::get_pushdata_opcode"],
-                     "thirteen minimally-pushed structured scripts (opcodes; direct pushes of 1, 2, 3, 75 bytes; PUSHDATA1 of 76 and 255; PUSHDATA2 of 256; IF/ELSE, NOTIF without ELSE, empty branches, two-level nesting; OP_0; the empty script) with ALL payload bytes symbolic - so every one- and two-byte payload whose hex text is all digits is covered", cost=1,
+OBLIGATIONS.append(M("C17", "c17_asm_alias_values", {"q": "asm_roundtrip", "alias": "include"}, ["Script::to_asm_string_impl", "Script::from_asm_string", "Script::map_string_to_script_bit"],
+                     "the same thirteen scripts with NO restriction on the payloads: the only deviation is the open known finding (a one-byte push 0x10..0x16 renders as '10'..'16' and is read back as OP_10..OP_16); any other deviation on these paths is reported", cost=1))
+OBLIGATIONS.append(M("C17", "c17_asm_tokens", {"q": "asm_roundtrip", "alias": "exclude"}, ["Script::to_asm_string_impl", "Script::script_bits_to_asm_string (+closure)", "Script::from_asm_string (+closure)", "Script::map_string_to_script_bit", "Script::if_statement_pass / read_if_statement / read_pass / read_fail", "VarInt::get_pushdata_opcode"],
+                     "thirteen minimally-pushed structured scripts (opcodes; direct pushes of 1, 2, 3, 75 bytes; PUSHDATA1 of 76 and 255; PUSHDATA2 of 256; IF/ELSE, NOTIF without ELSE, empty branches, two-level nesting; OP_0; the empty script) with ALL payload bytes symbolic except that one-byte payloads are assumed outside 0x10..0x16 (those seven values are the subject of c17_asm_alias_values) - every other one- and two-byte payload whose hex text is all digits is covered", cost=1,
                      stubs=("E2 text models: <OpCodes as ToString>::to_string / <i32 as ToString>::to_string -> literal tokens; hex::encode / hex::decode -> inverse token constructors; [String]::join(\" \") / str::split(' ') / str::trim / String::is_empty / <str as PartialEq>::eq on tokens; <OpCodes as FromStr>::from_str by variant name; collect::<Result<Vec<_>, _>>",)))
 
 OBLIGATIONS.append(M("C07", "c07_address_string", {"q": "address_string"}, ["P2PKHAddress::to_string_impl", "P2PKHAddress::from_string_impl"],
